@@ -49,6 +49,30 @@ def impl_state(w):
             tuple((t.tid, t.index, t.max_index) for t in tc.traces.values()))
 
 
+def wawk_emit(src):
+    """parse_wawk + AST.emit as `wawk` runs them in a fresh process (the default-argument dict of find_variables is a
+    process-wide accumulator; the command line tool transpiles one program per process)"""
+    from wawk.ast_defs import AST
+    d = AST.find_variables.__defaults__
+    if d and isinstance(d[0], dict):
+        d[0].clear()
+    forms, symbols = AST(wawk_parse(src), '').emit()
+    return list(forms), symbols
+
+
+_PARSED = {}
+
+
+def wawk_parse(src):
+    """parse_wawk (the Earley parse takes about a second per program: memoised per process, handed out as copies)"""
+    from wawk.parser import parse_wawk
+    if src not in _PARSED:
+        if len(_PARSED) > 8:
+            _PARSED.clear()
+        _PARSED[src] = parse_wawk(src)
+    return copy.deepcopy(_PARSED[src])
+
+
 def run_impl(steps, limit=5.0):
     """execute steps on a fresh interpreter; returns the list of observations (stops after an eval error)"""
     import contextlib
@@ -114,6 +138,11 @@ def run_impl(steps, limit=5.0):
                 obs.append(('ok', wal_str(impl.parse(st[1]) if isinstance(st[1], str) else st[1])))
             except BaseException as e:  # noqa: BLE001
                 obs.append(('other', type(e).__name__))
+        elif kind == 'wawkemit':
+            try:
+                obs.append(('ok', wire.canon(wawk_emit(st[1])[0])))
+            except BaseException as e:  # noqa: BLE001
+                obs.append(('err', type(e).__name__))
         elif kind == 'run':
             # Wal.run: evaluate as on a freshly started interpreter with the same traces at index 0
             import contextlib as _c
@@ -162,6 +191,8 @@ def model_lines(steps):
             lines.append(('read ' + hx(st[1])).rstrip())
         elif kind == 'print':
             lines.append('print ' + wire.enc(impl.parse(st[1]) if isinstance(st[1], str) else st[1]))
+        elif kind == 'wawkemit':
+            lines.append('wawkemit ' + wire.enc([[list(x.condition), x.action] for x in wawk_parse(st[1])]))
         elif kind == 'run':
             lines.append('#ignore runreset')
             lines.append(f'eval eor {FUEL} ' + wire.enc(impl.parse(st[1])))
@@ -207,6 +238,13 @@ def parse_reply(step, reply):
             return ('parse',)
         if toks[0] == 'unsup':
             return ('unsup', unhx(toks[1]) if len(toks) > 1 else '')
+        return ('bad', reply)
+    if kind == 'wawkemit':
+        if toks[0] == 'ok':
+            v, _ = wire.dec(toks[1:])
+            return ('ok', v)
+        if toks[0] == 'err':
+            return ('err', 'model')
         return ('bad', reply)
     if kind == 'print':
         if toks[0] == 'ok':
